@@ -59,7 +59,8 @@ def gen_plan(tape, cfg):
         symbols["u0"] = ["S", "U"]
         symbols["u1"] = ["S", "U"]
         if tape.chance(1, 2, "usort2"):
-            symbols["w0"] = ["S", "V W"]
+            symbols["w0"] = ["S", "VW"]
+            symbols["w1"] = ["S", "VW"]
     ctx = bp.GenCtx(symbols, bv=True, usorts=use_usort)
     nsolvers = 2 if tape.chance(1, 4, "two solvers") else 1
     kinds = [(6, "assert"), (3, "push"), (3, "pop"), (4, "solve"), (1, "reset")]
@@ -71,10 +72,35 @@ def gen_plan(tape, cfg):
         kinds = [(w, k) for w, k in kinds if k not in ("get_model",)]
     n = tape.rint(5, 25, "nops")
     ops = []
+    # Known finding F6 makes every history that re-uses a symbol after
+    # reset_assertions end at that point.  So that resets are still explored
+    # in depth, most plans switch to a fresh generation of symbol names after
+    # each reset (name#k); 1 plan in 6 keeps re-using the old names.
+    reuse_after_reset = tape.chance(1, 6, "reuse_after_reset")
+    epoch = [0] * nsolvers
+    base_symbols = dict(symbols)
+
+    def ren(t, e):
+        if e == 0 or reuse_after_reset:
+            return t
+        if t[0] == "sym":
+            nm = "%s#%d" % (t[1], e)
+            srt = t[2]
+            if bp.is_usort(srt):
+                srt = ["S", "%s_%d" % (srt[1], e)]   # sort names stay simple symbols: pySMT does not quote them (C07 matter, not claimed here)
+            symbols[nm] = srt
+            return ["sym", nm, srt]
+        if t[0] in ("bool", "int", "real", "bv"):
+            return t
+        base = 1 + bp.PARAM_OPS.get(t[0], 0)
+        return t[:base] + [ren(x, e) for x in t[base:]]
+
     for _ in range(n):
         k = tape.weighted(kinds, "op")
         s = tape.draw(nsolvers, "which solver")
         o = {"op": k, "s": s}
+        if k == "reset":
+            epoch[s] += 1
         if k == "assert" or k in ONESHOT:
             o["f"] = bp.gen_term(tape, bp.BOOL, 2, ctx)
         elif k in ("push", "pop"):
@@ -86,6 +112,9 @@ def gen_plan(tape, cfg):
             o["kind"] = tape.choice(["is_sat", "is_valid", "is_unsat", "get_model"] if not use_usort
                                     else ["is_sat", "is_valid", "is_unsat"], "shortcut.kind")
             o["f"] = bp.gen_term(tape, bp.BOOL, 2, ctx)
+        for key in ("f", "t"):
+            if key in o and k != "shortcut":
+                o[key] = ren(o[key], epoch[s] - (1 if k == "reset" else 0))
         ops.append(o)
     profile = {"short_reads": tape.chance(1, 2, "short_reads"),
                "short_writes": tape.chance(1, 4, "short_writes"),
@@ -182,6 +211,23 @@ def classify_illegal(ref):
                 cat = "undeclared-after-pop"
         cmd = src.split()[0].lstrip("(") if src else "?"
         cat = "%s@%s" % (cat, cmd)
+    elif "unknown sort" in why:
+        name = why.split("unknown sort ", 1)[1].strip()
+        cat = "unknown-sort"
+        declared = False
+        for e in ref.log:
+            if e["no"] >= no:
+                break
+            if e["name"] == "declare-sort" and e["reply"] == "success":
+                nm = e["src"][len("(declare-sort"):].strip()
+                nm = nm[1:nm.index("|", 1)] if nm.startswith("|") else nm.split()[0]
+                if nm == name:
+                    declared = True
+                    cat = "sort-out-of-scope"
+            elif declared and e["name"] == "reset-assertions":
+                cat = "undeclared-sort-after-reset"
+            elif declared and e["name"] == "pop" and cat == "sort-out-of-scope":
+                cat = "undeclared-sort-after-pop"
     elif "already declared in scope" in why:
         cat = "redeclared-in-scope"
     elif why.startswith("pop"):
@@ -202,6 +248,14 @@ class _SolverState(object):
         self.extra = []           # blueprints asserted by a pending one-shot query
         self.pending = False
         self.used_at_depth = {}   # symbol -> set of depths where first declared (for non-triviality)
+
+
+def _sat(fs):
+    """brute-force truth over exactly the symbols that occur"""
+    syms = {}
+    for f in fs:
+        bp.symbols_of(f, syms)
+    return bp.satisfiable(fs, syms)
 
 
 def _ref_env(ref):
@@ -341,7 +395,7 @@ def execute(plan, tape):
                         continue
                     raise Violation("C17:spurious-unknown", "solve raised unknown but the solver said %s" % ref.mode)
                 st.extra, st.pending = [], False
-                want = bp.satisfiable(live(), symbols)
+                want = _sat(live())
                 if got != want:
                     raise Violation("C17:verdict", "%s returned %s, live assertions are %s (solver replied %s)" %
                                     (where, got, "sat" if want else "unsat", ref.mode))
@@ -358,7 +412,7 @@ def execute(plan, tape):
                     raise Violation("C17:spurious-unknown", "%s raised unknown but the solver said %s" % (k, ref.mode))
                 base = [st.tok_bp[j] for j in st.model.live_assertions()]
                 q = o["f"] if k != "is_valid" else ["not", o["f"]]
-                sat = bp.satisfiable(base + [q], symbols)
+                sat = _sat(base + [q])
                 want = sat if k == "is_sat" else not sat
                 if got != want:
                     raise Violation("C17:oneshot-verdict", "%s returned %s, truth %s" % (where, got, want))
@@ -464,7 +518,7 @@ def execute(plan, tape):
             raise Violation("C17:spurious-unknown", "shortcut %s raised unknown" % kind)
         probe("shortcut_" + kind)
         if kind == "get_model":
-            sat = bp.satisfiable([o["f"]], symbols)
+            sat = _sat([o["f"]])
             if (got is not None) != sat:
                 raise Violation("C17:shortcut-verdict", "get_model(%s) returned %s, formula is %s" %
                                 (bp.pretty(o["f"]), "a model" if got is not None else None, "sat" if sat else "unsat"))
@@ -483,7 +537,7 @@ def execute(plan, tape):
                     raise Violation("C17:model-unsat", "shortcut get_model returned a model falsifying the formula")
         else:
             q = o["f"] if kind != "is_valid" else ["not", o["f"]]
-            sat = bp.satisfiable([q], symbols)
+            sat = _sat([q])
             want = sat if kind == "is_sat" else not sat
             if got != want:
                 raise Violation("C17:shortcut-verdict", "%s(%s) returned %s, truth %s" %
